@@ -125,6 +125,9 @@ def cases(unit):
             yield {'fam': 'days', 'gaps': list(gaps)}
         for gaps in itertools.product([0.1, 0.7, 0.2, 0.0], repeat=5):
             yield {'fam': 'floats', 'gaps': list(gaps)}
+        # timestamps that go backwards (late records): the rule is stated on differences, nothing says they are positive
+        for gaps in itertools.product([-1.0, 0.5, -0.25, 1.0], repeat=4):
+            yield {'fam': 'floats', 'gaps': list(gaps)}
         yield {'fam': 'manykeys', 'keys': 4200}
         return
     a, i, c, inc = CONFIGS[unit['cfg']]
